@@ -36,7 +36,7 @@ package tabula
 // ---- C10: deriving a configured extractor never changes (or shares mutable state with) the one it came from ----
 //@ func (ExtractOptions) clone results (res)
 //@   property C10, C03
-//@   flags noalias, nosafety
+//@   flags noalias
 //@   fresh pages
 //@   ensures same_values: res.excludeHeaders == o.excludeHeaders && res.excludeFooters == o.excludeFooters && res.byColumn == o.byColumn && res.preserveLayout == o.preserveLayout && res.joinParagraphs == o.joinParagraphs && sameseq(res.pages, o.pages)
 
@@ -47,14 +47,14 @@ package tabula
 
 //@ func (*Extractor) clone results (res)
 //@   property C10
-//@   flags noalias, nosafety
+//@   flags noalias
 //@   fresh warnings, pages
 //@   ensures parent_unchanged: e == old(e)
 //@   ensures same_configuration: !isnil(res) && sameSource(res, e) && sameFlags(res.options, e.options) && sameseq(res.options.pages, e.options.pages)
 
 //@ func (*Extractor) Pages results (res)
 //@   property C10
-//@   flags noalias, nosafety
+//@   flags noalias
 //@   fresh pages
 //@   ensures parent_unchanged: e == old(e)
 //@   ensures pages_appended: !isnil(res) && sameSource(res, e) && sameFlags(res.options, e.options) && len(res.options.pages) == len(e.options.pages) + len(pages) && (forall k int :: {res.options.pages[k]} 0 <= k && k < len(e.options.pages) ==> res.options.pages[k] == e.options.pages[k]) && (forall k int :: {pages[k]} 0 <= k && k < len(pages) ==> res.options.pages[len(e.options.pages) + k] == pages[k])
@@ -62,7 +62,7 @@ package tabula
 // chained selections accumulate: the range is APPENDED to whatever was selected before
 //@ func (*Extractor) PageRange results (res)
 //@   property C10
-//@   flags noalias, nosafety
+//@   flags noalias
 //@   fresh pages
 //@   ensures parent_unchanged: e == old(e)
 //@   ensures range_same_configuration: !isnil(res) && sameSource(res, e) && sameFlags(res.options, e.options)
@@ -80,7 +80,7 @@ package tabula
 // this operation is closed on every exit.  (PageCount, IsCharacterLevel and IsMultiColumn are not terminal.)
 //@ func (*Extractor) Text results (out, warns, err)
 //@   property C10, C11
-//@   flags nosafety, releases
+//@   flags releases
 //@   callsite FilterFragments(pi, fr, h) requires pi == pd.index && sameseq(fr, pd.fragments) && h == pd.page.Height()
 //@   loop 0:
 //@     invariant len(requestedPages) == $i && forall k int :: {requestedPages[k]} 0 <= k && k < $i ==> requestedPages[k].index == pageIndices[k]
@@ -96,11 +96,11 @@ package tabula
 //@   flags frameonly, releases
 //@ func (*Extractor) Lines
 //@   property C10, C11
-//@   flags nosafety, releases
+//@   flags releases
 //@   callsite FilterFragments(pi, fr, h) requires pi == pd.index && sameseq(fr, pd.fragments) && h == pd.page.Height()
 //@ func (*Extractor) Paragraphs
 //@   property C10, C11
-//@   flags nosafety, releases
+//@   flags releases
 //@   callsite FilterFragments(pi, fr, h) requires pi == pd.index && sameseq(fr, pd.fragments) && h == pd.page.Height()
 //@ func (*Extractor) ReadingOrder
 //@   property C10, C11
@@ -169,32 +169,26 @@ package tabula
 // option setters: the extractor they are called on is left as it was; the derived one differs in exactly that option
 //@ func (*Extractor) ExcludeHeaders results (res)
 //@   property C10
-//@   flags nosafety
 //@   ensures parent_unchanged: e == old(e)
 //@   ensures only_this_option_set: !isnil(res) && sameSource(res, e) && sameseq(res.options.pages, e.options.pages) && res.options.excludeHeaders && res.options.excludeFooters == e.options.excludeFooters && res.options.byColumn == e.options.byColumn && res.options.preserveLayout == e.options.preserveLayout && res.options.joinParagraphs == e.options.joinParagraphs
 //@ func (*Extractor) ExcludeFooters results (res)
 //@   property C10
-//@   flags nosafety
 //@   ensures parent_unchanged: e == old(e)
 //@   ensures only_this_option_set: !isnil(res) && sameSource(res, e) && sameseq(res.options.pages, e.options.pages) && res.options.excludeFooters && res.options.excludeHeaders == e.options.excludeHeaders && res.options.byColumn == e.options.byColumn && res.options.preserveLayout == e.options.preserveLayout && res.options.joinParagraphs == e.options.joinParagraphs
 //@ func (*Extractor) ExcludeHeadersAndFooters results (res)
 //@   property C10
-//@   flags nosafety
 //@   ensures parent_unchanged: e == old(e)
 //@   ensures only_this_option_set: !isnil(res) && sameSource(res, e) && sameseq(res.options.pages, e.options.pages) && res.options.excludeHeaders && res.options.excludeFooters && res.options.byColumn == e.options.byColumn && res.options.preserveLayout == e.options.preserveLayout && res.options.joinParagraphs == e.options.joinParagraphs
 //@ func (*Extractor) JoinParagraphs results (res)
 //@   property C10
-//@   flags nosafety
 //@   ensures parent_unchanged: e == old(e)
 //@   ensures only_this_option_set: !isnil(res) && sameSource(res, e) && sameseq(res.options.pages, e.options.pages) && res.options.joinParagraphs && res.options.excludeHeaders == e.options.excludeHeaders && res.options.excludeFooters == e.options.excludeFooters && res.options.byColumn == e.options.byColumn && res.options.preserveLayout == e.options.preserveLayout
 //@ func (*Extractor) ByColumn results (res)
 //@   property C10
-//@   flags nosafety
 //@   ensures parent_unchanged: e == old(e)
 //@   ensures only_this_option_set: !isnil(res) && sameSource(res, e) && sameseq(res.options.pages, e.options.pages) && res.options.byColumn && res.options.excludeHeaders == e.options.excludeHeaders && res.options.excludeFooters == e.options.excludeFooters && res.options.preserveLayout == e.options.preserveLayout && res.options.joinParagraphs == e.options.joinParagraphs
 //@ func (*Extractor) PreserveLayout results (res)
 //@   property C10
-//@   flags nosafety
 //@   ensures parent_unchanged: e == old(e)
 //@   ensures only_this_option_set: !isnil(res) && sameSource(res, e) && sameseq(res.options.pages, e.options.pages) && res.options.preserveLayout && res.options.excludeHeaders == e.options.excludeHeaders && res.options.excludeFooters == e.options.excludeFooters && res.options.byColumn == e.options.byColumn && res.options.joinParagraphs == e.options.joinParagraphs
 
@@ -202,7 +196,6 @@ package tabula
 // (a line repeated at the same marginal position on every page must be removed from a one-page selection too)
 //@ func (*Extractor) collectAllPages results (res, err)
 //@   property C11
-//@   flags nosafety
 //@   count visited: GetPage(k) when true
 //@   callsite GetPage(k) requires page_by_index: k == i
 //@   atreturn every_page_of_the_document_is_visited: visited == pageCount || (pageCount < 0 && visited == 0)
@@ -214,7 +207,6 @@ package tabula
 // ---- C02: the padding of the preserve-layout rendering is bounded whatever positions the content stream gives ----
 //@ func (*Extractor) extractPreserveLayout results (res)
 //@   property C02
-//@   flags nosafety
 //@   callsite strings.Repeat(s, n) requires padding_is_bounded: n <= maxLayoutColumns
 //@   loop 3:
 //@     invariant 0 <= i && i <= gapInLines && gapInLines <= maxLayoutBlankLines
